@@ -1,7 +1,7 @@
 #!/usr/bin/env python3
 """Configure (once) and build the harness runner against the instrumented pika build tree."""
 import os, subprocess, sys
-B = "/verif/build"
+B = os.environ.get("VERIF_BUILD", "/verif/build")
 H = B + "/harness"
 SIM = ("-fsanitize=thread -mllvm -tsan-instrument-memory-accesses=0 -mllvm -tsan-instrument-func-entry-exit=0 "
        "-mllvm -tsan-instrument-memintrinsics=0 -mllvm -tsan-handle-cxx-exceptions=0")
